@@ -507,9 +507,15 @@ void RealVisitor::check_power(const RCP<const Basic> &base,
                 is_real_ = tribool::indeterminate;
             }
         } else if (is_true(is_nonnegative(*base, assumptions_))) {
-            // base >= 0 and exp is real => true
+            // base >= 0 and exp is real => true, unless it can be
+            // 0**(negative number)
             exp->accept(*this);
             if (is_false(is_real_)) {
+                is_real_ = tribool::indeterminate;
+            } else if (is_true(is_real_)
+                       and not is_true(is_positive(*base, assumptions_))
+                       and not is_true(
+                           is_nonnegative(*exp, assumptions_))) {
                 is_real_ = tribool::indeterminate;
             }
         } else {
